@@ -302,6 +302,9 @@ MUTANTS = [
          edits=[E("rustradio_macros/src/lib.rs", "#(#out_names.produce(n, &otags);)*", "#(#out_names.produce(n - 1, &otags);)*")], also=["C19"]),
     dict(name="c08-rev-iterator", prop="C08", expect="C08.R1:<S11 as block::Block>::work:i:adaptors",
          edits=[E("rustradio_macros/src/lib.rs", "quote! { #first.iter().take(n) }", "quote! { #first.iter().take(n).rev() }")]),
+    dict(name="c08-audecode-odd-byte", prop="C08", expect="C08.R3:<au::AuDecode as block::Block>::work",
+         edits=[E("src/au.rs", """                let n = n - (n & 1);
+                if n == 0 {""", """                if n < 2 {""")]),
     # ---------------- C12 (generated tag path)
     dict(name="c12-tag-new-zero", prop="C12", expect="C12.R2:<add::Add as block::Block>::work:emit_pos",
          edits=[E("rustradio_macros/src/lib.rs", "otags.push(#path::stream::Tag::new(pos, tag.key(), tag.val().clone()));", "otags.push(#path::stream::Tag::new(0, tag.key(), tag.val().clone()));", count=2)]),
